@@ -5,7 +5,7 @@
    The theorems hold for EVERY JSON header decoder `ph`, EVERY key resolver `rs`, EVERY assignment `sm` of a meaning
    to signature byte strings (ideal signatures: a byte string is a signature of at most one key/procedure/message)
    and every claims decoder `po`; tokens, detached payloads and verifier configurations are arbitrary. *)
-From Coq Require Import List NArith String Bool.
+From Coq Require Import List NArith String Ascii Bool.
 Import ListNotations.
 From VF Require Import common.Base64 C08.Types gen.Gen_C08 C08.Model C08.Proofs.
 Local Open Scope N_scope.
@@ -131,6 +131,49 @@ Definition w_hdr (alg kid : string) : list N -> option hview :=
 Definition w_key (f : fam) (r : repr) : pkey := {| pk_fam := f; pk_repr := r; pk_id := 1 |}.
 Definition w_rs (k : pkey) : string -> string -> option pkey := fun _ _ => Some k.
 Definition w_sm (p : sproc) (m : string) : list N -> sigv := fun bs => match bs with [] => SEmpty | _ => SBy 1 p (chars m) end.
+
+
+(* THE DID-DOCUMENT RESOLVER (didsignjwt.VDRKeyResolver, the one VerifyJWT uses).  For every set of documents:
+   the key a kid resolves to belongs to a method of the kid's DID document whose id contains the fragment and
+   which the document lists under a relationship other than keyAgreement ... *)
+Theorem resolver_returns_signing_method : forall ds d f k, resolve_docs ds d f = Some k ->
+  exists ms m, find_doc ds d = Some ms /\ In m ms /\ vm_key m = k /\
+               contains f (vm_id m) = true /\ vm_rel m <> RKeyAgr.
+Proof. exact resolve_docs_sound. Qed.
+Print Assumptions resolver_returns_signing_method.
+
+(* ... a fragment that only names methods listed for key agreement resolves to no key ... *)
+Theorem keyagreement_only_never_resolved : forall ds d f ms,
+  find_doc ds d = Some ms -> (forall m, In m ms -> contains f (vm_id m) = true -> vm_rel m = RKeyAgr) ->
+  resolve_docs ds d f = None.
+Proof. exact keyagreement_only_unresolved. Qed.
+Print Assumptions keyagreement_only_never_resolved.
+
+(* ... hence a token accepted over the VDR resolver is signed, under its alg, by a signing-capable method of the
+   kid's DID *)
+Theorem did_accept_signed_by_signing_method : forall ph ds sm tok det h payload,
+  parse_jws ph (resolve_docs ds) sm Fixed VBasic det tok = Accept h payload ->
+  exists d f rest ms m alg p sg,
+    split_on "#" (kid_string h) = d :: f :: rest /\ find_doc ds d = Some ms /\ In m ms /\
+    contains f (vm_id m) = true /\ vm_rel m <> RKeyAgr /\
+    h_alg h = JS alg /\ alg_spec alg = Some (pk_fam (vm_key m), p) /\
+    b64dec (nth 2 (split_dot tok) []) = Some sg /\
+    sm sg = SBy (pk_id (vm_key m)) p (signed_bytes h (nth 0 (split_dot tok) []) payload).
+Proof. exact did_accept_signing_method. Qed.
+Print Assumptions did_accept_signed_by_signing_method.
+
+Example resolver_nonvacuous :
+  let k := fun n => {| pk_fam := FP256; pk_repr := RJwk; pk_id := n |} in
+  let ds := [("did:x"%string, [ {| vm_id := "did:x#ka"; vm_rel := RKeyAgr; vm_key := k 1 |};
+                                 {| vm_id := "did:x#key-10"; vm_rel := RGeneral; vm_key := k 2 |};
+                                 {| vm_id := "did:x#key-1"; vm_rel := RAuth; vm_key := k 3 |};
+                                 {| vm_id := "did:x#key-1"; vm_rel := RKeyAgr; vm_key := k 3 |} ])] in
+  resolve_docs ds "did:x" "ka" = None /\ resolve_docs ds "did:x" "key-1" = Some (k 2) /\
+  resolve_docs ds "did:x" "key-1" <> Some (k 3) /\ resolve_docs ds "did:y" "key-1" = None /\
+  (exists h, parse_jws (w_hdr "ES256" "did:x#key-10") (resolve_docs ds)
+               (fun bs => match bs with [] => SEmpty | _ => SBy 2 (PEc H256) (chars "e30.QQ") end)
+               Fixed VBasic None (chars "e30.QQ.QQ") = Accept h [65]).
+Proof. vm_compute. repeat split; try discriminate. eexists; reflexivity. Qed.
 
 (* HISTORICAL REFUTATIONS — the code as found (before the three fix: commits); witnesses in corpus/C08. *)
 (* DESIGN s11 #6: a payload segment altered within its unused trailing bits ("QQ" -> "QR") or by a line break was
